@@ -30,15 +30,15 @@ RULE = (
     "instances of a planted schema (ambiguous ENUM prefixes, 2-3 unknown fields, several simultaneous errors) and schema documents "
     "with colliding field names: validate x {META,SKILL,GEN_DET,unknown} x profiles x fix/grammar_hint/debug_grammar, write (content, "
     "lenient, schema) to per-call relative paths, eject 4 modes x 5 formats, compile_grammar (schema / content, gbnf / json_schema), "
-    "direct emit+warnings, seal, hash, Validator+routing log, reused GBNFCompiler. Executed by 13 (thorough 24) worker processes "
+    "direct emit+warnings, seal, hash, Validator+routing log, reused GBNFCompiler. Executed by 15 (thorough 30) worker processes "
     "covering PYTHONHASHSEED {0,1,4242,random} x 2 working directories x LANG/LC_ALL {C.UTF-8,C,POSIX} x mode {plain, after a "
-    "shuffled history of the same calls, asyncio.gather}; every call's serialised envelope must equal the reference worker's byte "
+    "shuffled history of the same calls, asyncio.gather, four OS threads sharing the tool instances with a 1 us GIL switch interval}; every call's serialised envelope must equal the reference worker's byte "
     "for byte. evaluations = calls x workers. Non-trivial = the reference envelope contains a list with >=2 entries (errors, "
     "repairs, warnings, unknown fields, routing) — where set iteration order would show; distinct by call."
 )
 ASSUMPTIONS = [
     "en_US.UTF-8 is not installed in this sandbox: locales are limited to C.UTF-8, C and POSIX",
-    "tool bodies contain no await, so tasks of one event loop run one after the other; OS-thread interleavings inside the reader are not explored",
+    "tool bodies contain no await, so tasks of one event loop run one after the other; OS-thread interleavings are sampled (4 threads, 1 us switch interval), the harness does not own that schedule",
     "the file system under the worker's cwd is part of the input: the recorded pass starts from the same (empty) output directory in every worker",
 ]
 GEN_DET = ('===GEN_DET===\nMETA:\n  TYPE::SCHEMA\n  VERSION::"1.0.0"\n---\nPOLICY:\n  VERSION::"1.0"\n  UNKNOWN_FIELDS::REJECT\n---\nFIELDS:\n'
@@ -123,12 +123,14 @@ def configs(tier: str):
     out.append({**base, "mode": "shuffled", "sseed": 1})
     out.append({**base, "mode": "shuffled", "sseed": 2, "hashseed": "4242"})
     out.append({**base, "mode": "gather"})
+    out.append({**base, "mode": "threads", "sseed": 5})
+    out.append({"hashseed": "random", "cwd": "B", "lang": "C", "mode": "threads", "sseed": 6})
     out.append({"hashseed": "random", "cwd": "B", "lang": "POSIX", "mode": "shuffled", "sseed": 3})
     out.append({"hashseed": "1", "cwd": "B", "lang": "C", "mode": "gather"})
     out.append({"hashseed": "random", "cwd": "A", "lang": "C", "mode": "plain"})
     if tier != "quick":
         for hs in ("7", "99", "random", "random"):
-            for mode in ("plain", "shuffled", "gather"):
+            for mode in ("plain", "shuffled", "gather", "threads"):
                 out.append({"hashseed": hs, "cwd": "AB"[len(out) % 2], "lang": ["C.UTF-8", "C", "POSIX"][len(out) % 3], "mode": mode, "sseed": len(out)})
     return out
 
